@@ -47,6 +47,8 @@ pub struct Obs {
     pub evaluations: u64,
     pub excluded_known: BTreeMap<String, u64>,
     pub counters: BTreeMap<String, u64>,
+    /// non-trivial cases that are distinct by construction (exhaustive enumerations)
+    pub distinct_extra: u64,
     pub enabled: bool,
     sample_labels: HashSet<String>,
 }
@@ -67,6 +69,12 @@ impl Obs {
     pub fn nontrivial(&mut self, h: u64) {
         if self.enabled {
             self.nontrivial.insert(h);
+        }
+    }
+    /// a non-trivial case of an enumeration whose cases are pairwise distinct by construction
+    pub fn nontrivial_enumerated(&mut self) {
+        if self.enabled {
+            self.distinct_extra += 1;
         }
     }
     pub fn nontrivial_bytes(&mut self, b: &[u8]) {
@@ -100,6 +108,7 @@ impl Obs {
         }
         self.nontrivial.extend(o.nontrivial);
         self.evaluations += o.evaluations;
+        self.distinct_extra += o.distinct_extra;
         for (c, s) in o.samples {
             if self.samples.len() < 10 && !self.sample_labels.contains(&c) {
                 self.sample_labels.insert(c.clone());
@@ -174,6 +183,8 @@ pub fn install_panic_hook() {
         LAST_PANIC.with(|p| *p.borrow_mut() = Some((loc.clone(), format!("{msg} @{loc}:{line}"))));
         if !QUIET.with(|q| q.get()) {
             prev(info);
+        } else if std::env::var("VERIF_BACKTRACE").is_ok() {
+            eprintln!("panic: {msg} at {loc}:{line}\n{}", std::backtrace::Backtrace::force_capture());
         }
     }));
 }
@@ -441,6 +452,82 @@ impl Run {
         }
     }
 
+    /// Exhaustive enumeration: case `i` in 0..total is the byte string `make(i)`, checked by `f`
+    /// on all worker threads. The smallest failing index is reported.
+    pub fn enumerate(&mut self, check: &str, total: u64, make: &(dyn Fn(u64) -> Vec<u8> + Sync), f: CaseFn) {
+        let threads = nthreads().max(1) as u64;
+        let results: Mutex<Vec<(Obs, Option<(u64, Vec<u8>, Failure)>)>> = Mutex::new(vec![]);
+        let known_keys: Vec<String> = if self.strict { vec![] } else { self.known.iter().map(|k| k.key.clone()).collect() };
+        let stop = AtomicBool::new(false);
+        let chunk = 4096u64;
+        let next = std::sync::atomic::AtomicU64::new(0);
+        let deadline = self.budget_s - self.start.elapsed().as_secs_f64();
+        let t0 = Instant::now();
+        let truncated = AtomicBool::new(false);
+        std::thread::scope(|s| {
+            for _ in 0..threads {
+                let results = &results;
+                let known_keys = &known_keys;
+                let stop = &stop;
+                let next = &next;
+                let truncated = &truncated;
+                std::thread::Builder::new()
+                    .stack_size(64 << 20)
+                    .spawn_scoped(s, move || {
+                        let mut obs = Obs::new();
+                        let mut fail = None;
+                        'outer: loop {
+                            let lo = next.fetch_add(chunk, Ordering::Relaxed);
+                            if lo >= total || stop.load(Ordering::Relaxed) {
+                                break;
+                            }
+                            if t0.elapsed().as_secs_f64() > deadline {
+                                truncated.store(true, Ordering::Relaxed);
+                                break;
+                            }
+                            for i in lo..(lo + chunk).min(total) {
+                                let bytes = make(i);
+                                obs.evaluations += 1;
+                                let mut src = Src::new(&bytes);
+                                let r = match guarded(|| f(&mut src, &mut obs)) {
+                                    Ok(r) => r,
+                                    Err(p) => Err(p),
+                                };
+                                if let Err(fl) = r {
+                                    if let Some(k) = &fl.key {
+                                        if key_known(k, known_keys) {
+                                            *obs.excluded_known.entry(k.clone()).or_insert(0) += 1;
+                                            continue;
+                                        }
+                                    }
+                                    fail = Some((i, bytes, fl));
+                                    stop.store(true, Ordering::Relaxed);
+                                    break 'outer;
+                                }
+                            }
+                        }
+                        results.lock().unwrap().push((obs, fail));
+                    })
+                    .unwrap();
+            }
+        });
+        if truncated.load(Ordering::Relaxed) {
+            self.truncated = true;
+        }
+        let mut rs = results.into_inner().unwrap();
+        rs.sort_by_key(|(_, f)| f.as_ref().map(|(i, _, _)| *i).unwrap_or(u64::MAX));
+        let mut reported = false;
+        for (o, fail) in rs {
+            self.obs.merge(o);
+            if let Some((_, bytes, fl)) = fail {
+                if !reported {
+                    reported = true;
+                    self.add_violation(check, bytes, fl);
+                }
+            }
+        }
+    }
+
     /// A single deterministic case (enumeration loops call this).
     pub fn case(&mut self, check: &str, bytes: &[u8], f: CaseFn) -> bool {
         self.obs.evaluations += 1;
@@ -580,7 +667,7 @@ impl Run {
         }
         let mut cov = serde_json::Map::new();
         cov.insert("evaluations".into(), json!(self.obs.evaluations.max(0)));
-        cov.insert("distinct_nontrivial".into(), json!(self.obs.nontrivial.len()));
+        cov.insert("distinct_nontrivial".into(), json!(self.obs.nontrivial.len() as u64 + self.obs.distinct_extra));
         cov.insert("rule".into(), json!(self.rule));
         cov.insert("samples".into(), J::Array(samples));
         cov.insert("classes".into(), json!(self.obs.labels));
@@ -623,7 +710,7 @@ impl Run {
             self.tier,
             self.seed,
             self.obs.evaluations,
-            self.obs.nontrivial.len(),
+            self.obs.nontrivial.len() as u64 + self.obs.distinct_extra,
             self.obs.excluded_known,
             wall
         );
